@@ -102,8 +102,8 @@ Section Merged.
   Proof. intros (A & B & C & D & E & F & G) H. repeat split; auto. Qed.
 
   Lemma mget h i : minv h ->
-    exists c, fst (get_item fs h i) = set_cache h c /\ minv (set_cache h c) /\
-              snd (get_item fs h i) = match nth_error items i with
+    exists c, fst (get_item fixed_cfg fs h i) = set_cache h c /\ minv (set_cache h c) /\
+              snd (get_item fixed_cfg fs h i) = match nth_error items i with
                                       | Some x => inl (tag x) | None => inr EIndex end.
   Proof.
     intros M. pose proof M as (A & B & C & D & E & F & G). unfold get_item. rewrite A.
@@ -114,8 +114,10 @@ Section Merged.
         by (now rewrite map_map).
       rewrite locate_concat. fold items.
       destruct (nth_error items i) as [x|] eqn:N.
-      + rewrite (items_whole i x N). cbn. exists ((i, x) :: h_cache h). repeat split; auto.
-        now apply cache_all_ok_cons.
+      + unfold loaded. rewrite (items_whole i x N). cbn [fix_C07a fixed_cfg].
+        destruct (fits h (isize x)).
+        * cbn. exists ((i, x) :: h_cache h). repeat split; auto. now apply cache_all_ok_cons.
+        * exists (h_cache h). rewrite set_cache_id. cbn. auto.
       + exists (h_cache h). rewrite set_cache_id. cbn. auto.
   Qed.
 
@@ -126,14 +128,14 @@ Section Merged.
   Qed.
 
   Lemma miter : forall m a h keeps acc, minv h -> a + m = length items ->
-    exists c, fst (iter_go fs h (seq a m) keeps acc) = set_cache h c /\ minv (set_cache h c) /\
-              snd (iter_go fs h (seq a m) keeps acc) = OItems (rev acc ++ map tag (skipn a items)) None.
+    exists c, fst (iter_go fixed_cfg fs h (seq a m) keeps acc) = set_cache h c /\ minv (set_cache h c) /\
+              snd (iter_go fixed_cfg fs h (seq a m) keeps acc) = OItems (rev acc ++ map tag (skipn a items)) None.
   Proof.
     induction m as [|m IH]; intros a h keeps acc M Hl; cbn [seq iter_go].
     - exists (h_cache h). rewrite set_cache_id. split; [reflexivity|split; [exact M|]]. cbn [snd].
       rewrite skipn_all2 by lia. cbn [map]. now rewrite app_nil_r.
     - destruct (mget h a M) as (c & E1 & M1 & E2).
-      destruct (get_item fs h a) as [h1 r] eqn:G. cbn in E1, E2. subst h1.
+      destruct (get_item fixed_cfg fs h a) as [h1 r] eqn:G. cbn in E1, E2. subst h1.
       destruct (nth_error items a) as [x|] eqn:N.
       2:{ apply nth_error_None in N. lia. }
       subst r.
@@ -188,7 +190,7 @@ Section Merged.
       reflexivity.
     - (* Get *)
       destruct (mget h i M) as (c & G1 & G2 & G3).
-      destruct (get_item fs h i) as [h1 rr]. cbn in G1, G2, G3. subst h1 rr. injection E as <- <-.
+      destruct (get_item fixed_cfg fs h i) as [h1 rr]. cbn in G1, G2, G3. subst h1 rr. injection E as <- <-.
       split; [eexists; split; [reflexivity|split; auto]|].
       unfold spec_step. cbn [concat_world s_h]. fold concat_world. rewrite Hitems, nth_error_strip.
       destruct (nth_error items i); reflexivity.
@@ -199,7 +201,7 @@ Section Merged.
     - (* Iter *)
       unfold store_len in E. rewrite A, Hparts, sum_len_concat in E. unfold seqn in E.
       destruct (miter (length items) 0 h keeps [] M eq_refl) as (c & G1 & G2 & G3).
-      destruct (iter_go fs h (seq 0 (length items)) keeps []) as [h1 rr]. cbn in G1, G2, G3. subst h1 rr.
+      destruct (iter_go fixed_cfg fs h (seq 0 (length items)) keeps []) as [h1 rr]. cbn in G1, G2, G3. subst h1 rr.
       injection E as <- <-. split; [eexists; split; [reflexivity|split; auto]|].
       unfold spec_step. cbn [concat_world s_h]. fold concat_world. rewrite Hitems, map_fst_strip. reflexivity.
     - (* Sync *) rewrite D in E. injection E as <- <-. split; [exists h; split; auto; split; auto|]. reflexivity.
@@ -217,7 +219,7 @@ Section Merged.
         destruct (table_lookup id (isort (merged_pairs 0 parts))) as [idx|] eqn:T.
         * apply merged_table_lookup in T as (it & Hn & Hf); auto.
           destruct (mget h idx M) as (c & G1 & (G2a & G2b & G2c & G2) & G3).
-          destruct (get_item fs h idx) as [h1 rr]. cbn in G1, G3. subst h1 rr.
+          destruct (get_item fixed_cfg fs h idx) as [h1 rr]. cbn in G1, G3. subst h1 rr.
           fold items in Hn. rewrite Hn in E. injection E as <- <-.
           split; [eexists; split; [reflexivity|apply Keep; exact G2c]|].
           now rewrite (sfind_unique id items Nd idx it Hn Hf).
@@ -240,7 +242,7 @@ Section Merged.
      end) /\ mh_ok (set_cache h c).
   Proof.
     intros (M & Hix). destruct (mget h i M) as (c & G1 & G2 & G3).
-    exists c. cbn [step w_h w_fs]. destruct (get_item fs h i) as [h1 rr]. cbn in G1, G3. subst h1 rr.
+    exists c. cbn [step w_h w_fs]. destruct (get_item fixed_cfg fs h i) as [h1 rr]. cbn in G1, G3. subst h1 rr.
     split; [|split; auto]. destruct (nth_error items i); reflexivity.
   Qed.
 
